@@ -74,6 +74,7 @@ structure Abs where
   pauseUntil : Nat := 0
   susp : Option (Nat × (String × String × Int × Int)) := none   -- index, ctx
   seen : List Int := []
+  overrode : Bool := false     -- only used for `relaxed` scenarios (a plugin that pauses its ruleset without returning STOP)
 
 def takeThrough (sc : Nat → Call) : List Nat → List Nat
   | [] => []
@@ -89,9 +90,12 @@ def iInst : IEv → Nat
   | IEv.p i => i
   | IEv.d i _ => i
   | IEv.a i _ _ _ _ _ _ => i
+def iInv : IEv → Bool
+  | IEv.a _ _ _ _ _ _ inv => inv
+  | _ => false
 
 /-- check one ruleset on one tick; returns violated clauses and the new abstract state -/
-def checkRs (cfg : RsCfg) (sc : Nat → Call) (evs : List IEv) (A : Abs) : List String × Abs := Id.run do
+def checkRs (relaxed : Bool) (cfg : RsCfg) (sc : Nat → Call) (evs : List IEv) (A : Abs) : List String × Abs := Id.run do
   let detInsts := cfg.groups.flatMap (·.dets)
   let dets := evs.filter fun e => match e with | IEv.d i _ => detInsts.contains i | _ => false
   let acts := evs.filter fun e => match e with | IEv.a i _ _ _ _ _ _ => cfg.actions.contains i | _ => false
@@ -166,20 +170,32 @@ def checkRs (cfg : RsCfg) (sc : Nat → Call) (evs : List IEv) (A : Abs) : List 
       let idx := (cfg.actions.idxOf? (iInst e)).getD 0
       A' := { A' with susp := some (idx, ctxOf e) }
     | Ret.cont => A' := { A' with susp := none }
+  if relaxed then
+    -- scripts outside the BaseKillPlugin protocol (pause_actions followed by ASYNC_PAUSED / CONTINUE): the property does not
+    -- say which delay applies, so the pause bookkeeping follows the code (Ruleset::pause_actions / the STOP case); what is
+    -- decided on these histories are the C06 clauses (the suspended chain survives the pause and resumes itself)
+    let (pu, ov) := acts.foldl (fun (acc : Nat × Bool) e =>
+      let c := sc (iInst e)
+      let tEnd := iNow e + c.adv
+      let acc := match c.pause with
+        | some d => if iInv e then (tEnd + d, true) else acc
+        | none => acc
+      if c.ret == Ret.stop then (if acc.2 then (acc.1, false) else (tEnd + cfg.delay, false)) else acc) (A.pauseUntil, A.overrode)
+    A' := { A' with pauseUntil := pu, overrode := ov }
   return (v, A')
 
-def checkAll (cfgs : List RsCfg) : List TickJ → List (List IEv) → List Abs → List String
+def checkAll (relaxed : Bool) (cfgs : List RsCfg) : List TickJ → List (List IEv) → List Abs → List String
   | [], _, _ => []
   | _, [], _ => ["trace.missing_ticks"]
   | t :: ts, evs :: rest, As =>
     let sc := callOf t.calls
-    let rs := (cfgs.zip As).map fun (cfg, A) => checkRs cfg sc evs A
+    let rs := (cfgs.zip As).map fun (cfg, A) => checkRs relaxed cfg sc evs A
     -- rulesets in configuration order: the events of ruleset i all precede those of ruleset i+1 (run phase)
     let runEvs := evs.filter fun e => match e with | IEv.p _ => false | _ => true
     let owner (e : IEv) : Nat := (cfgs.findIdx? fun c => (c.groups.flatMap (·.dets)).contains (iInst e) || c.actions.contains (iInst e)).getD 0
     let owners := runEvs.map owner
     let ordered := (owners.zip (owners.drop 1)).all fun (a, b) => a ≤ b
-    (rs.flatMap (·.1)) ++ (if ordered then [] else ["C02.config_order"]) ++ checkAll cfgs ts rest (rs.map (·.2))
+    (rs.flatMap (·.1)) ++ (if ordered then [] else ["C02.config_order"]) ++ checkAll relaxed cfgs ts rest (rs.map (·.2))
 
 def evJ : IEv → Json
   | IEv.p i => Json.arr #["p", i]
@@ -198,7 +214,7 @@ def handle (j : Json) : Json :=
   let m := renameUuids model
   let impl := (jarr tr "ticks").map fun t => (asArr t).map parseIEv
   let accepts := m == impl
-  let viol := (checkAll cfgs ticks impl (cfgs.map fun _ => {})).eraseDups
+  let viol := (checkAll (jbool sc "relaxed") cfgs ticks impl (cfgs.map fun _ => {})).eraseDups
   let mine := if prop.isEmpty then viol else viol.filter fun c => c.startsWith prop || c.startsWith "trace"
   let firstDiff := ((m.zip impl).findIdx? fun (a, b) => a != b).getD (min m.length impl.length)
   verdict id accepts mine.isEmpty mine ""
